@@ -2,6 +2,7 @@
 // plan (de)serialisation, run loop, fork-isolated shrinker.
 #include "fsim.h"
 #include <cstdarg>
+#include <ctime>
 #include <cerrno>
 #include <unistd.h>
 #include <sys/mman.h>
@@ -14,6 +15,7 @@ namespace fsim {
 Arena g_arena;
 WindowCtl g_win;
 static volatile uint64_t g_current_run = 0;
+volatile int g_watchdog_fired = 0;
 volatile uint8_t g_scrub_byte = 0;
 __attribute__((noinline)) void scrub_stack(uint8_t byte) {
     volatile uint8_t buf[48 * 1024];
@@ -159,7 +161,8 @@ void Outcome::hash_into(Hash &h) const {
 }
 void Outcome::describe(char *buf, size_t n) const {
     if (kind == 1) {
-        if (slot >= 0) snprintf(buf, n, "signal %d code %d %s at slot %d offset %ld (data is [0,%d))", signo, code, write ? "WRITE" : "READ", slot, off, (int)SLOT_BYTES);
+        if (signo == SIGALRM) snprintf(buf, n, "watchdog: the operation did not return within 5 s (SIGALRM)");
+        else if (slot >= 0) snprintf(buf, n, "signal %d code %d %s at slot %d offset %ld (data is [0,%d))", signo, code, write ? "WRITE" : "READ", slot, off, (int)SLOT_BYTES);
         else snprintf(buf, n, "signal %d code %d %s outside the arena (si_addr==0: general protection, e.g. aligned access on unaligned address)", signo, code, write ? "WRITE" : "READ");
     } else snprintf(buf, n, "%s allocs=%u", what(), allocs);
 }
@@ -171,7 +174,8 @@ static void die_line(const char *tag, int signo) {
     _exit(3);
 }
 static void on_signal(int signo, siginfo_t *si, void *ucv) {
-    if (!g_win.open) die_line("signal-outside-window", signo);
+    if (!g_win.open) { if (signo == SIGALRM) return; die_line("signal-outside-window", signo); }
+    if (signo == SIGALRM) g_watchdog_fired = g_watchdog_fired + 1;
     g_win.open = 0;
     ucontext_t *uc = (ucontext_t *)ucv;
     Outcome &o = g_win.sig; o = Outcome();
@@ -185,6 +189,7 @@ static void on_signal(int signo, siginfo_t *si, void *ucv) {
     siglongjmp(g_win.env, 1);
 }
 static void on_terminate() { die_line("terminate", 0); }
+void watchdog(bool on) { alarm(on ? 5u : 0u); }
 void install_signal_layer() {
     static uint8_t altstack[1 << 16];
     stack_t ss; ss.ss_sp = altstack; ss.ss_size = sizeof altstack; ss.ss_flags = 0;
@@ -192,7 +197,7 @@ void install_signal_layer() {
     struct sigaction sa; memset(&sa, 0, sizeof sa);
     sa.sa_sigaction = on_signal; sa.sa_flags = SA_SIGINFO | SA_ONSTACK | SA_NODEFER;
     sigemptyset(&sa.sa_mask);
-    int sigs[] = {SIGSEGV, SIGBUS, SIGILL, SIGFPE};
+    int sigs[] = {SIGSEGV, SIGBUS, SIGILL, SIGFPE, SIGALRM};
     for (int s : sigs) sigaction(s, &sa, nullptr);
     std::set_terminate(on_terminate);
 }
@@ -262,7 +267,12 @@ static EvalOut eval_forked(World &w, const char *prop, const Plan &p) {
 
 static int shrink(World &w, const char *prop, Plan &p, const char *klass, int budget) {
     int evals = 0;
-    auto still = [&](const Plan &c) { if (evals >= budget) return false; ++evals; EvalOut e = eval_forked(w, prop, c); return e.status != 0 && !strcmp(e.klass, klass); };
+    // wall-clock cap for pathological cases only (every candidate of a hanging operation costs a watchdog period);
+    // it limits how far a plan is minimised, never what is reported
+    struct timespec t0; clock_gettime(CLOCK_MONOTONIC, &t0);
+    auto still = [&](const Plan &c) { if (evals >= budget) return false;
+        struct timespec t1; clock_gettime(CLOCK_MONOTONIC, &t1); if (t1.tv_sec - t0.tv_sec > 90) return false;
+        ++evals; EvalOut e = eval_forked(w, prop, c); return e.status != 0 && !strcmp(e.klass, klass); };
     // ddmin over steps
     size_t n = 2;
     while (p.steps.size() >= 2 && evals < budget) {
@@ -323,6 +333,7 @@ int fsim_main(int argc, char **argv) {
             ++runs; steps += r.steps; agg ^= mix2(idx, r.hash);
             if (runlines) printf("R %llu %016llx %u\n", (unsigned long long)idx, (unsigned long long)r.hash, r.steps);
             if (samples_wanted > 0 && !r.v.bad) { --samples_wanted; printf("SAMPLE-BEGIN %llu\n", (unsigned long long)idx); print_plan(stdout, w, prop, p); printf("SAMPLE-END\n"); }
+            if (g_watchdog_fired >= 3) { cnt.bump("anomaly/worker-stopped-after-3-watchdog-timeouts (operations hang on this tree)"); k = count; }
             if (r.v.bad) {
                 ++nviol;
                 if (nviol <= 40) {
